@@ -426,7 +426,10 @@ func checkC18(w *World, r *Recorder) propInfo {
 	// M3
 	var roots []*ssa.Function
 	for _, a := range api {
-		if a.shared && !strings.HasSuffix(a.name, "Verify") {
+		if a.shared {
+			// Verify included: "verification gives the same result every time it
+			// is repeated" — the in-repo part of the verify path consults no
+			// clock, randomness or environment either
 			roots = append(roots, a.fn)
 		}
 	}
